@@ -419,7 +419,7 @@ namespace bluetoe {
 
         static void write_128bit_uuid( std::uint8_t* out, const details::attribute& char_declaration );
 
-        // mapping of a last handle to a valid attribute index
+        // mapping of a last handle to a valid attribute index (or invalid_attribute_index, if all attribute handles are larger)
         std::size_t last_handle_index( std::uint16_t ending_handle );
 
         std::size_t advertising_data_impl( std::uint8_t* buffer, std::size_t buffer_size, const auto_advertising_data& ) const;
@@ -1548,6 +1548,9 @@ namespace bluetoe {
     {
         const std::size_t last_index = last_handle_index( ending_handle );
 
+        if ( last_index == details::invalid_attribute_index )
+            return;
+
         for ( std::size_t index = handle_mapping::first_index_by_handle( starting_handle ); index <= last_index; ++index )
         {
             const details::attribute attr = attribute_at( index );
@@ -1674,9 +1677,14 @@ namespace bluetoe {
     {
         const std::size_t mapped = handle_mapping::first_index_by_handle( ending_handle );
 
-        return mapped == details::invalid_attribute_index
-            ? number_of_attributes - 1
-            : mapped;
+        if ( mapped == details::invalid_attribute_index )
+            return number_of_attributes - 1;
+
+        // if the ending handle points not on an existing attribute, the last attribute in front of that handle is meant.
+        if ( handle_mapping::handle_by_index( mapped ) != ending_handle )
+            return mapped == 0 ? details::invalid_attribute_index : mapped - 1;
+
+        return mapped;
     }
 
     template < typename ... Options >
